@@ -62,7 +62,7 @@ Proof.
 Qed.
 
 Lemma facts : retain_is_rmw = true /\ release_is_rmw = true /\ release_frees_on = 1 /\
-              arm_locks_before_call = true /\ arm_holds_lock_during_call = true.
+              arm_locks_before_call = true /\ arm_holds_lock_during_call = true /\ release_synchronizes = true.
 Proof. repeat split; reflexivity. Qed.
 
 Ltac upd_simpl :=
@@ -73,7 +73,7 @@ Ltac upd_simpl :=
 
 Lemma inv_step s s' : Inv s -> step s s' -> Inv s'.
 Proof.
-  intros I H. destruct facts as (F1 & F2 & F3 & F4 & F5).
+  intros I H. destruct facts as (F1 & F2 & F3 & F4 & F5 & _).
   destruct I as [Irefs Ibusy Ilock Ifreed Infreed Isnap Iimpl].
   destruct H as [s i Hi Ho _ | s i Hi Hg _ | s i j Hi Hj Hij Hg | s i Hi Hat Ho | s i Hi Hat Hl | s i snap Hi Hat];
     constructor; cbn [refs lock freed drops impl completed ths]; upd_simpl.
@@ -242,7 +242,7 @@ Qed.
 Theorem dropped_when_all_released n s : reachable n s -> refs s = 0 -> drops s = 1.
 Proof.
   intros R. induction R as [|s s' R IH H]; [discriminate|].
-  pose proof (reachable_inv _ _ R) as I. destruct facts as (_ & _ & F3 & _ & _).
+  pose proof (reachable_inv _ _ R) as I. destruct facts as (_ & _ & F3 & _ & _ & _).
   destruct H; cbn [refs drops]; intro Z; try (now apply IH); try lia.
   - (* SDrop *) rewrite F3. destruct (Nat.eqb (refs s) 1) eqn:E.
     + destruct I as [_ _ _ Ifreed Infreed _ _].
